@@ -91,7 +91,7 @@ def _launch(case, td, name, hashseed, aff, delays):
         proposal=case["proposal"], outlier_prob=case["outlier_prob"], subtree_update_prob=case["subtree_prob"], concentration_update=case["conc_update"], print_freq=1000, density="binomial",
     )
     env = dict(os.environ)
-    env.update(PYTHONPATH="%s:/repo" % VERIF, PYTHONHASHSEED=hashseed, PYTHONDONTWRITEBYTECODE="1", VP_DELAYS=json.dumps(delays or {}), OMP_NUM_THREADS="1", NUMBA_NUM_THREADS="1")
+    env.update(PYTHONPATH="%s:%s" % (VERIF, os.environ.get("PHYCLONE_REPO", "/repo")), PYTHONHASHSEED=hashseed, PYTHONDONTWRITEBYTECODE="1", VP_DELAYS=json.dumps(delays or {}), OMP_NUM_THREADS="1", NUMBA_NUM_THREADS="1")
     if aff is not None:
         env["VP_AFF"] = str(aff % (os.cpu_count() or 1))
     else:
